@@ -9,6 +9,7 @@ import WebpVerif.Lemmas.Vp8Coef
 import WebpVerif.Lemmas.Vp8Tok
 import WebpVerif.Model.Vp8Quant
 import WebpVerif.Spec.Vp8QuantSpec
+import WebpVerif.Lemmas.Vp8LF
 
 /-!
 # C02 — VP8 key-frame reconstruction is bit-exact
@@ -98,6 +99,23 @@ example : Vp8Quant.factors true true (-3) 40 2 (-15) 15 (-7) 0 = [36, 41, 44, 86
 /-- the y2ac floor and the uvdc cap are both reachable -/
 example : Vp8Quant.factors false false 0 0 0 0 0 0 0 = [4, 4, 8, 8, 4, 4] ∧
     Vp8Quant.factors false false 0 127 0 0 0 0 0 = [157, 284, 314, 440, 132, 284] := by decide +kernel
+
+
+/-! ### the loop-filter driver -/
+
+/-- **the loop-filter driver visits the edges as the reference decoder does.** `Vp8LF.filterMb`
+    models one call of `Vp8Decoder::loop_filter` (tied to the real function over whole frames
+    through hook 73798e6: every display-size residue mod 16, both filter types, every sharpness,
+    levels 1..63, random B_PRED / coefficient flags; displayed samples compared): for every filter
+    type, level, interior limit, hev threshold, inner-edge flag, plane strides, macroblock position
+    and plane contents it equals `LibwebpLF.doFilter`, the transcription of libwebp's `DoFilter`
+    with the loops of `dsp/dec.c` in libwebp's own pointer arithmetic (left macroblock edge unless
+    in column 0, three inner vertical luma edges and one chroma edge, top macroblock edge unless in
+    row 0, inner horizontal edges; 16 / 8 positions per edge; `limit + 4` on macroblock edges; luma
+    only for the simple filter). -/
+theorem filter_driver_is_reference (isSimple : Bool) (level il hev : Nat) (inner : Bool) (W CW mbx mby : Nat) (p : Vp8LF.Planes) :
+    Vp8LF.filterMb isSimple level il hev inner W CW mbx mby p = LibwebpLF.doFilter isSimple level il hev inner W CW mbx mby p :=
+  Vp8LFProof.filterMb_is_doFilter isSimple level il hev inner W CW mbx mby p
 
 /-! ### loop-filter kernels = RFC 6386 section 15 -/
 
